@@ -14,6 +14,7 @@ int main(int argc, char **argv)
         return 2;
     }
     installCrashHandlers();
+    installRoutesHook();
     Ctx c;
     c.a = a;
     c.prop_hash = hashStr(a.prop.c_str());
